@@ -117,6 +117,8 @@ def gen(ctx):
 
 
 def val(v):
+    if isinstance(v, int):
+        return v
     n = int(''.join(map(str, reversed(v['mag']))) or '0')
     return -n if v['neg'] else n
 
